@@ -10,15 +10,10 @@ impl ScanDataFlags {
         Self(value)
     }
 
-    /// Whether AVSET is enabled.
+    /// Whether AVSET is enabled. The ICD also defines an "AVSET disabled" bit; a flag word in which
+    /// both or neither of the two are set is reported by its "enabled" bit alone.
     pub fn avset_enabled(&self) -> bool {
-        let enabled_flag = self.0 & 0b0010 != 0;
-        let disabled_flag = self.0 & 0b0100 != 0;
-        debug_assert!(
-            enabled_flag ^ disabled_flag,
-            "Unexpected AVSET state (expected: enabled XOR disabled)"
-        );
-        enabled_flag
+        self.0 & 0b0010 != 0
     }
 
     /// Whether EBC is enabled.
